@@ -112,8 +112,10 @@ def classify(unit, out, res, diags, stderr):
             continue
         if "Resource limit (rlimit) exceeded" in msg or "rlimit" in msg.lower() and "exceeded" in msg.lower():
             raise Undecided("rlimit", msg + " @ " + span_site(d, out))
-        if not any(msg.startswith(k) or k in msg for k in smt_kinds):
-            # rustc / mode / lifetime / unsupported-construct errors are tool-level
+        if not any(msg.startswith(k) or k in msg for k in smt_kinds) and not vr.get("errors", 0) > 0:
+            # rustc / mode / lifetime / unsupported-construct errors are tool-level (they abort before
+            # the SMT stage, so verification-results.errors == 0); once Verus reports verification
+            # errors, every error diagnostic is a failed obligation
             raise Undecided("unsupported", f"{msg[:300]} @ {span_site(d, out)}")
         spans = [s for s in d.get("spans", []) if base(s.get("file_name", "")).endswith(".rs") and "/" not in s.get("file_name", "x/").replace(os.path.dirname(s.get("file_name", "")) + "/", "")]
         label = None
